@@ -29,10 +29,11 @@ Definition tSpan3 (t : tree) : Z * Z * Z := (tZ (tNth t 0), tZ (tNth t 1), tZ (t
 Definition ops : list (string * (tree -> tree)) := [
   (* [op, extras, s] -> outcome code *)
   ("t.one", fun t => I (run_str (tZ (tNth t 0)) (tNth t 1) (tStr (tNth t 2))));
-  (* [op, extras, alphabet, prefix, n] -> outcome codes of every string of the block *)
+  (* [op, extras, alphabet, prefix, n, suffix?] -> outcome codes of every string of the block *)
   ("t.block", fun t =>
+      let suffix := tStr (tNth t 5) in
       L (map I (enum (Z.to_nat (tZ (tNth t 4))) (tList tStr (tNth t 2)) (tStr (tNth t 3))
-                     (run_str (tZ (tNth t 0)) (tNth t 1)))));
+                     (fun s => run_str (tZ (tNth t 0)) (tNth t 1) (s ++ suffix)))));
   (* [markup, asis, s, W, E s, highlighter spans] -> outcome code of Console.print *)
   ("t.print", fun t =>
       let s := tStr (tNth t 2) in
